@@ -60,6 +60,10 @@ CHECKS = {
    text="Fault enumeration x generated follow-ups: 19 scenarios each provoke one API error outcome (TLS listener without config / without certificate, address in use, Listen twice, refused synchronous dial, bad address, unknown scheme, garbage or truncated handshake from raw peers, pipes rejected by the Attaching hook on the listener and on the dialer side, protocol refusal, connections lost right after attach, receive/send timeout, no peers, protocol-state error, closed listener/dialer) on the transports that can produce it; then 3-8 generated calls on the same listener/dialer and its socket (option get/set with good and bad values, Address, Send/Recv with deadlines, sibling endpoints) each run under a 2 s watchdog; then the cause is corrected and the SAME object is retried (supply the TLS config, free the port, start the listener) and a message round trip proves the object works; after rejected or lost connections a fresh well-behaved peer must get through.",
    note="Reaches the error paths in this catalogue only; the statement's universal claim over every lock-to-return path would need static analysis, which is outside this technique and not used. Hangs are decided by a 2 s watchdog.",
    technique="property-based fault enumeration (rapid): provoked API errors followed by generated call sequences under a watchdog, with correct-and-retry and round-trip liveness oracles"),
+ "C08": dict(
+   text="Generated topologies (BUS full meshes and chains of 2-5 members, chains with raw BUS members forwarding through Device(s,s), STAR random trees of 2-6 cooked/raw members; inproc, tcp, ipc; one connection per pair, sending only after every planned link is Attached on both ends) with 0-20 tagged messages per member sent sequentially or concurrently. Oracle: the multiset each member receives equals a flood model (cooked BUS delivers to direct neighbours only and never forwards; a forwarding raw BUS passes a message to every peer except its arrival pipe; STAR delivers every message to every other member exactly once), nobody receives its own message, nothing is altered; a sentinel from every originator, travelling the same FIFO links, closes the observation so that 'nothing extra' needs no timeout.",
+   note="Volumes stay below the queue lengths ('queue space permitting'); loop-free topologies only; interleavings of concurrent senders are sampled.",
+   technique="property-based testing (rapid) over generated topologies with a reference flood model and sentinel-closed multiset comparison"),
 }
 
 ALL = ["C%02d" % i for i in range(1, 21)]
